@@ -1,5 +1,7 @@
 import Rg.Model.Macro
 import Rg.Model.IRConv
+import Rg.Proofs.MacroLit
+import Rg.Proofs.MacroGroup
 /-!
 # C18 — helper functions are transparent (macro half)
 
@@ -9,7 +11,16 @@ import Rg.Model.IRConv
   name occurs as a selected field name in the body — the hypothesis is necessary: D18
   (`func(Text dsl.Var) bool { return Text.Text.Matches("1") }` panics) and the renamed selector
   (an identifier argument silently rewrites `X.Line` into `X.Const`) are kernel-checked below;
-* `arity_panic` the code as it is indexes `macro.params[i]` without a bound check.
+* `arity_panic` the code as it is indexes `macro.params[i]` without a bound check;
+* `retype_int_is_go_value` the constant `expandMacro` re-creates for a copied integer literal (the `types.Info`
+  patch: `strconv.ParseInt(text, 0, 64)`) is the value the Go language gives the literal, for every
+  well-formed literal below 2^63 — legacy octal, `0b`/`0o`/`0x` in either case, decimal, `_` separators;
+  `retype_int_folds`: so it folds to the IR of the same literal written inline; `retype_string`,
+  `retype_other_never_folds` (rune, float, imaginary literals of a helper body are never folded: rejected);
+* `group_calls_see_go_binding` on every group the statement loop accepts, the helper a call is expanded with
+  (`findLocalMacro`: first recorded) is the value the function variable has in Go when the rule is reached
+  (latest `:=` / `=`); `group_refuses_assign`: a plain `=` is refused — necessary: recorded like `:=` the
+  first-match lookup would pick the old body (kernel-checked below).
 -/
 namespace C18
 open Macro
@@ -286,5 +297,91 @@ example : noFold ⟨.none, false⟩ := by
   · intro n h; simp at h
 
 end consts
+
+/-! ## the `types.Info` patch for copied literals -/
+section literals
+open MacroLit Conv IR
+
+/-- **The re-created constant of a copied integer literal is Go's value of the literal.** -/
+theorem retype_int_is_go_value (f : LitForm) (hwf : f.wf) (hv : f.value < 2 ^ 63) (unq : Option Bytes) :
+    retype "INT" f.text unq = .int (Int.ofNat f.value) := by
+  have h : ("INT" == "STRING") = false := by decide
+  simp [retype, h, parseInt0_is_go_value f hwf hv]
+
+/-- … so the copied literal converts to the IR of the literal written inline (`const_fold_int`), whatever its spelling -/
+theorem retype_int_folds (f : LitForm) (hwf : f.wf) (hv : f.value < 2 ^ 63) (isStr : Bool) (unq : Option Bytes) :
+    convert (.lit ⟨retype "INT" f.text unq, false⟩ isStr unq) = .ok (mkOp "Int" (.int64 (Int.ofNat f.value)) []) :=
+  const_fold_int _ _ (by simp [CExpr.ann, retype_int_is_go_value f hwf hv unq])
+
+theorem retype_string (text : List Nat) (s : Bytes) : retype "STRING" text (some s) = .str s := by
+  simp [retype]
+
+/-- rune, float and imaginary literals in a helper body never get a foldable value -/
+theorem retype_other_never_folds (kind : String) (text : List Nat) (unq : Option Bytes)
+    (h1 : kind ≠ "STRING") (h2 : kind ≠ "INT") : noFold ⟨retype kind text unq, false⟩ := by
+  have e1 : (kind == "STRING") = false := by simpa using h1
+  have e2 : (kind == "INT") = false := by simpa using h2
+  have e : retype kind text unq = if (kind == "FLOAT") = true then CV.other else CV.none := by
+    simp [retype, e1, e2]
+  constructor
+  · intro s; show retype kind text unq ≠ _; rw [e]; split <;> simp
+  · intro n; show retype kind text unq ≠ _; rw [e]; split <;> simp
+
+-- non-vacuity, kernel-checked: `0777` is 511 (not 777), `0x_1F` is 31, `1_000` is 1000, `0b101` is 5, `0O17` is 15;
+-- `08`, `0x`, `1__0`, `1_` and 2^63 are not integers (no entry: the expansion is rejected)
+example : retype "INT" [48, 55, 55, 55] none = .int 511 := by decide
+example : retype "INT" [48, 120, 95, 49, 70] none = .int 31 := by decide
+example : retype "INT" [49, 95, 48, 48, 48] none = .int 1000 := by decide
+example : retype "INT" [48, 98, 49, 48, 49] none = .int 5 := by decide
+example : retype "INT" [48, 79, 49, 55] none = .int 15 := by decide
+example : retype "INT" [48, 95, 55] none = .int 7 := by decide
+example : retype "INT" [48] none = .int 0 := by decide
+example : retype "INT" [48, 56] none = .none := by decide
+example : retype "INT" [48, 120] none = .none := by decide
+example : retype "INT" [49, 95, 95, 48] none = .none := by decide
+example : retype "INT" [49, 95] none = .none := by decide
+example : retype "INT" [57, 50, 50, 51, 51, 55, 50, 48, 51, 54, 56, 53, 52, 55, 55, 53, 56, 48, 56] none = .none := by decide
+example : retype "INT" [57, 50, 50, 51, 51, 55, 50, 48, 51, 54, 56, 53, 52, 55, 55, 53, 56, 48, 55] none = .int 9223372036854775807 := by decide
+example : retype "CHAR" [39, 97, 39] none = .none := by decide
+example : (LitForm.legacyOctal [some (7, false), some (7, false), some (7, false)]).text = [48, 55, 55, 55] ∧
+    (LitForm.legacyOctal [some (7, false), some (7, false), some (7, false)]).value = 511 := by decide
+example : (LitForm.legacyOctal [some (7, false), some (7, false), some (7, false)]).wf := by
+  refine ⟨?_, by decide⟩
+  intro d u h
+  simp at h
+  omega
+example : (LitForm.prefixed 16 88 [none, some (1, false), some (15, true)]).text = [48, 88, 95, 49, 70] ∧
+    (LitForm.prefixed 16 88 [none, some (1, false), some (15, true)]).value = 31 := by decide
+
+end literals
+
+/-! ## the statement loop -/
+section group
+open MacroLit Macro
+
+/-- **Every call of a helper is expanded with the binding Go gives the variable at that rule** — on every group
+the loop accepts, provided no name is defined twice with `:=` (Go's type checker refuses that). -/
+theorem group_calls_see_go_binding (stmts : List Stmt) (out : List (List (Option MacroDef)))
+    (hnd : (defNames stmts).Nodup) (h : groupLoop [] stmts = some out) : out = goGroup [] stmts :=
+  groupLoop_is_go stmts [] out rfl (by simpa using hnd) h
+
+/-- a plain `=` of a helper is not a recognised statement: the group is refused -/
+theorem group_refuses_assign (fs : List MacroDef) (n : String) (ps : List String) (b : GExpr) (rest : List Stmt) :
+    groupLoop fs (.assign n ps b :: rest) = none := rfl
+
+/-- the refusal is necessary: were `=` recorded like `:=`, `h := A; rule(h); h = B; rule(h)` would expand the
+second rule with `A`, while Go calls `B` -/
+def reassigned : List Stmt :=
+  [.define "h" ["v"] (.sel (.ident "v") "Const"), .rule ["h"], .assign "h" ["w"] (.sel (.ident "w") "Pure"), .rule ["h"]]
+
+example : groupLoop [] reassigned = none := by decide
+example : groupLoopCapturingAssign [] reassigned ≠ some (goGroup [] reassigned) := by decide
+example : goGroup [] reassigned =
+    [[some ⟨"h", ["v"], .sel (.ident "v") "Const"⟩], [some ⟨"h", ["w"], .sel (.ident "w") "Pure"⟩]] := by decide
+-- non-vacuity of `group_calls_see_go_binding`
+example : groupLoop [] [.define "h" ["v"] (.ident "v"), .decl, .rule ["h", "g"], .define "g" [] (.ident "m"), .rule ["g"]] =
+    some [[some ⟨"h", ["v"], .ident "v"⟩, none], [some ⟨"g", [], .ident "m"⟩]] := by decide
+
+end group
 
 end C18
